@@ -271,7 +271,7 @@ class PointOnLine:
         d2 = R.x_dist2_seg(p, a, b)
         txt = f"segment {a}-{b}, p={p}: library says {outcome['ans']}, squared distance {d2}"
         if name.startswith("point farther"):
-            return outcome["ans"] and d2 >= (2 * R.BAND) ** 2, txt
+            return outcome["ans"] and d2 >= R.BAND**2, txt  # the same margin as the obligation (z_seg_off implies distance >= BAND)
         return (not outcome["ans"]) and d2 == 0, txt
 
     def signature(self, name, xs, outcome, exc):
